@@ -651,7 +651,7 @@ proof fn witness_resource_bounds()
         //# C04.ods_reader_position_text_value
         r is Ok && text_route(atts.rem()) ==> cell_scan(old(reader).events(), old(reader).pos() as int, txt_init()).ok
             && final(reader).pos() == cell_scan(old(reader).events(), old(reader).pos() as int, txt_init()).end + 1,
-        //# C19.ods_cell_text
+        //# C19,C04.ods_cell_text
         r is Ok && text_route(atts.rem()) ==>
             (r->Ok_0.0 matches Data::String(s) && s@ == cell_text(old(reader).events(), old(reader).pos() as int)),
         //# C04.ods_value_is_the_function_unit_ods_assumes
@@ -1123,7 +1123,7 @@ pub open spec fn table_result(evs: Seq<Ev>, p0: nat, vlo: (u32, u32), vhi: (u32,
 }
 
 //@@ item src/ods.rs const MAX_ROWS
-//@@ fn src/ods.rs read_table props=C04 entry ret=r r12
+//@@ fn src/ods.rs read_table props=C04,C14 entry ret=r r12
 //@@ sig
     requires
         // resource bound (as for get_datatype): the part has no more XML events than a usize can count
@@ -1134,7 +1134,7 @@ pub open spec fn table_result(evs: Seq<Ev>, p0: nat, vlo: (u32, u32), vhi: (u32,
         r is Ok ==> final(reader).events() == old(reader).events(),
         //# C04.ods_table_reader_position
         r is Ok ==> final(reader).pos() == table_next(old(reader).events(), old(reader).pos()) && final(reader).pos() > old(reader).pos(),
-        //# C04.ods_table_rows_in_document_order
+        //# C04,C14.ods_table_rows_in_document_order
         r is Ok ==> table_result(old(reader).events(), old(reader).pos(), r->Ok_0.0.lo(), r->Ok_0.0.hi(), r->Ok_0.0.data(),
             r->Ok_0.1.lo(), r->Ok_0.1.hi(), r->Ok_0.1.data()),
 //@@ body
@@ -1143,21 +1143,21 @@ pub open spec fn table_result(evs: Seq<Ev>, p0: nat, vlo: (u32, u32), vhi: (u32,
     let ghost mut rows_done: Seq<RowEl> = Seq::empty();
 //@@ loop 0
         invariant_except_break
-            //# C04.ods_table_rows_so_far
+            //# C04,C14.ods_table_rows_so_far
             table_rows(evs, p0) == rows_done + table_rows(evs, reader.pos()),
             //# C04.ods_table_scan_position
             table_next(evs, p0) == table_next(evs, reader.pos()),
         invariant
             reader.events() == evs, evs == old(reader).events(), p0 == old(reader).pos(), evs.len() <= usize::MAX, reader.pos() >= p0,
-            //# C04.ods_cols_are_row_boundaries
+            //# C04,C14.ods_cols_are_row_boundaries
             cols_shape(cols@, cells@.len() as int),
-            //# C04.ods_formulas_in_step_with_cells
+            //# C04,C14.ods_formulas_in_step_with_cells
             formulas@.len() == cells@.len(),
-            //# C04.ods_one_repeat_count_per_row
+            //# C04,C14.ods_one_repeat_count_per_row
             rows_repeats@.len() == rows_done.len() && cols@.len() == rows_done.len() + 1,
             //# C04.ods_row_values_so_far
             table_values(rows_done, evs, cells@, cols@, rows_repeats@),
-            //# C04.ods_row_formulas_so_far
+            //# C04,C14.ods_row_formulas_so_far
             table_formulas(rows_done, evs, formulas@, cols@, rows_repeats@),
             //# C06.ods_repeat_counts_positive
             reps_pos(rows_repeats@),
@@ -1234,7 +1234,7 @@ pub open spec fn table_result(evs: Seq<Ev>, p0: nat, vlo: (u32, u32), vhi: (u32,
         assert(wf_shape(cells@, cols@, rows_repeats@));
         assert(wf_shape(formulas@, cols@, rows_repeats@));
         assert(hyp(cells@, cols@, rows_repeats@));
-        //# C04.ods_table_parts
+        //# C04,C14.ods_table_parts
         assert(table_parts(evs, p0, cells@, formulas@, cols@, rows_repeats@));
     }
 //@@ end
@@ -1627,7 +1627,7 @@ proof fn lemma_ranges_push(m0: Map<Seq<char>, (Range<Data>, Range<String>)>, evs
     }
 }
 
-//@@ fn src/ods.rs parse_content props=C16,C04 entry ret=r r12 mutparams
+//@@ fn src/ods.rs parse_content props=C16,C04,C14 entry ret=r r12 mutparams
 //@@ sig
     requires
         // resource bound (as in read_table): the content part has no more XML events than a usize can count
@@ -1648,7 +1648,7 @@ proof fn lemma_ranges_push(m0: Map<Seq<char>, (Range<Data>, Range<String>)>, evs
         //# C16.ods_defined_names_in_order
         r is Ok && pc_scan(content_events(__p_zip)->Some_0, 0, pc_init()).st.names_valid ==>
             names_view(r->Ok_0.defined_names@) == pc_scan(content_events(__p_zip)->Some_0, 0, pc_init()).st.names,
-        //# C04.ods_sheet_ranges_by_name
+        //# C04,C14.ods_sheet_ranges_by_name
         r is Ok ==> ranges_are(r->Ok_0.sheets.m(), content_events(__p_zip)->Some_0, pc_scan(content_events(__p_zip)->Some_0, 0, pc_init()).st.sheets),
 //@@ closure 0
     -> (res: Result<Cow<'_, str>, quick_xml::Error>) ensures (unesc(cow_ref(&a.value)@) is Some ==> res is Ok && cow_ref(&res->Ok_0)@ == unesc(cow_ref(&a.value)@)->Some_0) && (unesc(cow_ref(&a.value)@) is None ==> res is Err)
@@ -1680,7 +1680,7 @@ proof fn lemma_ranges_push(m0: Map<Seq<char>, (Range<Data>, Range<String>)>, evs
             meta_is(sheets_metadata@, st.sheets),
             //# C16.ods_defined_names_so_far
             st.names_valid ==> names_view(defined_names@) == st.names,
-            //# C04.ods_sheet_ranges_so_far
+            //# C04,C14.ods_sheet_ranges_so_far
             ranges_are(sheets.m(), evs, st.sheets),
         ensures
             tot.ok && tot.st == st,
@@ -1750,7 +1750,7 @@ proof fn lemma_ranges_push(m0: Map<Seq<char>, (Range<Data>, Range<String>)>, evs
 // #####################################################################################################################
 pub struct Frame;
 impl Frame {
-//@@ fn src/ods.rs read_row props=C04 alias=frame entry ret=r r4 r12
+//@@ fn src/ods.rs read_row props=C04,C14 alias=frame entry ret=r r4 r12
 //@@ r6 1
 //@@ sig
     requires
@@ -1763,7 +1763,7 @@ impl Frame {
         //# C04.row_reader_position
         r is Ok ==> row_scan(old(reader).events(), old(reader).pos()).ok
             && final(reader).pos() == row_next(old(reader).events(), old(reader).pos()) && final(reader).pos() > old(reader).pos(),
-        //# C04.row_cells_and_formulas_in_step
+        //# C04,C14.row_cells_and_formulas_in_step
         r is Ok ==> final(cells)@.len() - old(cells)@.len() == final(formulas)@.len() - old(formulas)@.len(),
 //@@ body
     let ghost evs = reader.events();
